@@ -10,6 +10,14 @@ import traceback
 def _wrap(args):
     fn, a, kw = args
     try:
+        # `kill -USR1 <worker pid>` prints the worker's Python stack
+        import faulthandler
+        import signal
+
+        faulthandler.register(signal.SIGUSR1, all_threads=True, chain=False)
+    except Exception:
+        pass
+    try:
         return ("ok", fn(*a, **kw))
     except BaseException as e:  # reported as harness error by the parent
         return ("err", f"{type(e).__name__}: {e}\n{traceback.format_exc()}")
